@@ -37,6 +37,10 @@ def cases(ctx):
             fcfg["pp"] = (fcfg["pp"] or []) + [ipgen.rand_net4(rng, 32)]
         yield {"kind": "dump", "fcfg": fcfg, "seed": rng.getrandbits(32), "nfiles": rng.randint(1, 8),
                "cli": rng.random() < ctx.pick(0.08, 0.05), "bad_files": rng.choice([0, 0, 1, 2]), "stale_dump": rng.random() < 0.3}
+    # the map cannot be written (its directory does not exist, the path is a directory): the run must not look successful
+    for fcfg in ipref.file_configs(rng, ctx.per_shard(ctx.pick(8, 400)), quick=ctx.quick):
+        yield {"kind": "dumpfault", "fcfg": fcfg, "seed": rng.getrandbits(32), "how": rng.choice(["missing-parent", "is-directory"]),
+               "cli": rng.random() < 0.3}
     # one large run: thousands of distinct addresses of both families (a memo that stops recording shows only then)
     for fcfg in ipref.file_configs(rng, ctx.per_shard(ctx.pick(4, 64)), quick=ctx.quick):
         fcfg["B4"] = rng.choice([0, 0, None, 8])
@@ -64,7 +68,47 @@ def read_pairs(segs, out_line):
     return pairs if pos == len(out_line) else None
 
 
+def _dumpfault(ctx, case):
+    nc = load.nc()
+    fcfg = dict(case["fcfg"])
+    rng = random.Random(case["seed"])
+    wd = tempfile.mkdtemp(dir=os.path.join(load.VERIF, ".work"))
+    try:
+        src, dst = os.path.join(wd, "in"), os.path.join(wd, "out")
+        os.makedirs(src)
+        with open(os.path.join(src, "a.cfg"), "w") as fh:
+            fh.write(" ip address 11.22.33.44 255.255.255.0\n ipv6 address 2001:db8::1/64\n")
+        if case["how"] == "missing-parent":
+            dump = os.path.join(wd, "no-such-dir", "map.tsv")
+        else:
+            dump = os.path.join(wd, "mapdir")
+            os.makedirs(dump)
+        failed = False
+        use_cli = case["cli"] and fcfg["salt"] and not fcfg["salt"].startswith("-")
+        if use_cli:
+            p = c02.run_cli(["-a", "-i", src, "-o", dst, "-d", dump, "-s", fcfg["salt"]], rng.randint(1, 9999))
+            ctx.count("cli_child_processes")
+            failed = p.returncode != 0
+        else:
+            try:
+                nc.af.anonymize_files(src, dst, False, True, salt=fcfg["salt"], dumpfile=dump)
+            except Exception:
+                failed = True
+        ctx.ev()
+        ctx.count("unwritable_dump_runs")
+        ctx.count("dump_lines_checked", 0)
+        if not failed and not os.path.isfile(dump):
+            ctx.violation(case, "run-succeeds-without-map", "the map path %s (%s) cannot be written, yet the run (%s) ended without an error and there is no map"
+                          % (os.path.relpath(dump, wd), case["how"], "CLI" if use_cli else "anonymize_files"))
+            return
+        ctx.distinct(("dumpfault", case["how"], use_cli, case["seed"]))
+    finally:
+        shutil.rmtree(wd, ignore_errors=True)
+
+
 def check_case(ctx, case):
+    if case["kind"] == "dumpfault":
+        return _dumpfault(ctx, case)
     if case["kind"] != "dump":
         raise HarnessError("unknown kind")
     nc = load.nc()
